@@ -56,7 +56,19 @@ def run(chk):
     chk.assume("scipy connected_components labels partition the nodes; breadth_first_order returns each node's predecessor")
 
 
+def prefilter_of(ev):
+    """The index array N when the neighbour cells are  slab['cell'][n_uc:][N]  (a pre-filtered subset of the neighbour images), else None."""
+    cells = [v for k, v in ev.defs.items() if k[1] == "cells"]
+    if cells:
+        ca = cells[0].as_atom()
+        if ca and ca[0] == "sub" and len(ca[2]) == 1 and ca[1].key() == "$slab['cell'][(slice $n_uc None None)]" and ca[2][0].as_atom() \
+                and ca[2][0].as_atom()[0] != "slice":
+            return ca[2][0]
+    return None
+
+
 def r04_16(chk, cr):
+    from ..poly import _mentions as _m
     q = "Crystal.unit_cell_connectivity"
     ev = cr.ev(q, opaque={"slab", "dist", "tree", "tree2", "covalent_radii", "cells", "n_uc", "max_cov"})
     chk.saw(CR, q)
@@ -79,6 +91,25 @@ def r04_16(chk, cr):
         if chk.want("R04.1"):
             chk.ob("R04.1", CR, q, "an edge is stored only under the key (lower index, higher index)", strict, node=e.node,
                    fingerprint=f"writer-order:{len(preds)}", found=[f"{'' if p else 'not '}{c}"[-90:] for c, p in e.guards][-2:])
+        # every close pair is a candidate: what keeps a pair out of the graph is its index order or its distance, nothing else
+        # (a pre-filter on positions, cells or flags silently drops bonds)
+        if chk.want("R04.1"):
+            base = set()
+            for e0 in ev.events:
+                if e0.kind == "assign" and e0.name in ("tree", "dist"):
+                    base |= {(c.key(), p) for c, p in e0.guards}
+            da = d.as_atom()
+            other = []
+            for c, pol in e.guards:
+                if (c.key(), pol) in base:
+                    continue
+                ca = c.as_atom()
+                order = bool(ca and ca[0] in ("lt", "le") and {ca[1].key(), ca[2].key()} == {a.key(), b.key()})
+                dist_test = da is not None and _m(c, da)
+                if not order and not dist_test:
+                    other.append(f"{'' if pol else 'not '}{c}"[-100:])
+            chk.ob("R04.1", CR, q, "every enumerated close pair is a candidate bond: a pair is left out only by the index order or the distance test",
+                   not other, node=e.node, fingerprint=f"every-pair:{len(preds)}", found=other)
         # predicate
         # the bonding predicate: the conjunction of the guards on the distance (compound conditions arrive split into their conjuncts)
         from ..symex import boolop, negate
@@ -95,16 +126,48 @@ def r04_16(chk, cr):
                 inner = ca[2][0] if ca and call_name(ca) == "tuple" else cell
                 ia = inner.as_atom()
                 okc = False
+                pre = prefilter_of(ev)
                 if ia and ia[0] == "sub" and ia[1].key() == "$cells":
                     nb = ia[2][0]
                     ba = b.as_atom()
-                    okc = bool(ba and ba[0] == "bin" and ba[1] == "Mod" and ba[2].key() == nb.key() and ba[3].key() == "$n_uc")
+                    # rows of the neighbour arrays: all of them, or those picked by one index array N (then row k is image N[k])
+                    row = nb if pre is None else P.atom(("sub", pre, (nb,)))
+                    okc = bool(ba and ba[0] == "bin" and ba[1] == "Mod" and ba[2].key() == row.key() and ba[3].key() == "$n_uc")
                 chk.ob("R04.1", CR, q, "a cross-cell bond carries the cell of the neighbour image, and that image's unit-cell atom is the "
-                       "second (higher) index", okc, node=e.node, fingerprint="cell:neighbour", found=f"b={b} cell={cell}")
+                       "second (higher) index", okc, node=e.node, fingerprint="cell:neighbour", found=f"b={b} cell={cell}"[:300])
+    if chk.want("R04.1") and prefilter_of(ev) is not None:
+        N = prefilter_of(ev)
+        POS = "$slab['frac_pos'][(slice $n_uc None None)]"
+        t2 = [v for k, v in ev.defs.items() if k[1] == "tree2"]
+        same_rows = bool(t2) and f"{POS}[{N}]" in t2[0].key()
+        # N = where(all((pos > -m) & (pos < 1 + m), axis=1))[0] with m = D x |reciprocal axes| and D the distance of the pair query:
+        # an image farther than D from the cell (in every direction, along each reciprocal axis) cannot be within D of an atom in it
+        okm, why = False, "not a box test on the neighbour positions"
+        na = N.as_atom()
+        wa = na[1].as_atom() if na and na[0] == "sub" and na[2] and na[2][0] == P.const(0) else None
+        if wa and call_name(wa) == "numpy.where" and len(wa[2]) == 1 and call_name(wa[2][0].as_atom() or ()) == "numpy.all":
+            m = wa[2][0].as_atom()[2][0].as_atom()
+            if m and m[0] == "bin" and m[1] == "BitAnd":
+                lo = hi = None
+                for side in (m[2], m[3]):
+                    sa = side.as_atom()
+                    if sa and sa[0] == "lt" and sa[2].key() == POS:
+                        lo = sa[1]
+                    elif sa and sa[0] == "lt" and sa[1].key() == POS:
+                        hi = sa[2]
+                dq = [v for k, v in ev.defs.items() if k[1] == "dist" and "$tree2" in v.key()]
+                D = dict(dq[0].as_atom()[3]).get("max_distance") if dq and dq[0].as_atom() and len(dq[0].as_atom()) > 3 else None
+                NORM = P.atom(("call", P.name("numpy.linalg.norm"), (P.atom(("attr", P.atom(("attr", P.name("self"), "unit_cell")), "inverse")),), (("axis", P.const(0)),)))
+                if lo is not None and hi is not None and D is not None:
+                    okm = (lo + D * NORM).is_zero() and (hi - 1 - D * NORM).is_zero()
+                    why = f"box [{lo}, {hi}] against query distance {D}"
+        chk.ob("R04.1", CR, q, "a pre-filter of the neighbour images keeps every image within the query distance of the cell: margin = distance x "
+               "reciprocal axis lengths (distance / cell lengths is too small in an oblique cell), and positions, cells and indices use the same rows",
+               okm and same_rows, fingerprint="prefilter", found=why[:300])
     if chk.want("R04.1"):
         cells = [v for k, v in ev.defs.items() if k[1] == "cells"]
         chk.ob("R04.1", CR, q, "neighbour cells and neighbour positions are the same rows of the slab (everything after the first n_uc)",
-               bool(cells) and cells[0].key() == "$slab['cell'][(slice $n_uc None None)]" and
+               bool(cells) and cells[0].key() in ("$slab['cell'][(slice $n_uc None None)]", f"$slab['cell'][(slice $n_uc None None)][{prefilter_of(ev)}]") and
                any("$slab['frac_pos'][(slice $n_uc None None)]" in e.value.key() for e in ev.events if e.kind == "assign" and e.value is not None),
                found=str(cells[0]) if cells else None)
         st = [e for e in ev.events if e.kind == "store" and e.loops]
